@@ -23,6 +23,7 @@
 
 LOG = "self._quic_logger is None or context.quic_logger_frames is not None"
 QCE, BRE, SFE = "QuicConnectionError", "BufferReadError", "StreamFinishedError"
+MEM = "MemoryError"  # Buffer(...) allocation failure (declared by the Buffer model): resource exhaustion, not an input-dependent failure
 
 R.field_types(
     "QuicConnection",
@@ -265,22 +266,52 @@ R.contract(
     **_H,
 )
 
-# What _handle_crypto_frame may assume about tls.Context.handle_message (contracts/tls_state.py verifies the TLS state
-# machine - property C11 - and declares "may raise any Exception" for it, because the message parsers and the
-# `cryptography` calls are trusted stubs that may raise anything).  Refinement used at this call site:
-#   * outcomes: tls.Alert (some subclass: all carry a class-level `description`), QuicConnectionError (raised by the
-#     connection's own _alpn_handler callback when the peer's transport parameters are bad), or any other Exception;
-#   * effects: ANY field of any object (the TLS context, and through the callbacks _update_traffic_key / _alpn_handler /
-#     _handle_session_ticket the connection, its crypto pairs, its recovery object, the event queue).
-def _refine_tls(reg):
-    c = reg.contracts.get("Context.handle_message")
-    if c is not None:
-        c.raises = {"Alert": None, "QuicConnectionError": None, "Exception": None}
-        c.raise_attrs = {"Alert": {"description": "fresh:int"}, "QuicConnectionError": {"error_code": "fresh:int", "frame_type": "fresh:Optional[int]", "reason_phrase": "fresh:str"}}
-        c.modifies = ["<everything>"]
+# What _handle_crypto_frame may assume about tls.Context.handle_message: its CALL-SITE SUMMARY "Context.handle_message!call",
+# DERIVED from the verified contract of handle_message (contracts/tls_state.py: "raises only tls.Alert subclasses, what the
+# callbacks raise, MemoryError, BufferWriteError for a too small output buffer, ValueError / OpenSSL Error for an unloadable
+# local trust configuration" - property C05, TLS part) by
+#   * renaming CallbackError - the abstract name the TLS contracts use for "whatever the installed callbacks raise" - to
+#     QuicConnectionError: the callbacks of THIS embedding are QuicConnection._alpn_handler (raises QuicConnectionError for
+#     bad transport parameters), _update_traffic_key and _handle_session_ticket (user handler: assumed not to raise);
+#   * effects: ANY field of any object (the TLS context and, through the callbacks, the connection, its crypto pairs, its
+#     recovery object, the event queue);
+#   * tying the two LOCAL outcomes to named assumptions of the call site (assume_pre of the block below), so that they are
+#     visible in the evidence instead of silently dropped:
+#       TLS_OUT  tls_out_room(tls): the per-epoch crypto output buffers (4096 bytes, _initialize) hold the local flight - its
+#                size is fixed by local configuration (certificate chain, ALPN, transport parameters) plus at most 255 + 32
+#                peer-chosen bytes (echoed session id / certificate request context)
+#       TLS_CA   the local trust configuration (cadata / cafile / capath or the certifi bundle) can be loaded
+#     and to the entry condition L of handle_message ("not fed again after it raised", contracts/tls_state.py).
+R.ufunc("tls_out_room", ["Context"], "bool")
+TLS_OUT = "tls_out_room(self.tls)"
+TLS_CA = "self.tls._verify_mode == ssl.CERT_NONE or not vc_config_bad(self.tls._cadata, self.tls._cafile, self.tls._capath)"
+TLS_LIVE = "live(self.tls)"
 
 
-R.after_load(_refine_tls)
+def _tls_call_summary(reg):
+    import copy
+
+    real = reg.contracts.get("Context.handle_message")
+    if real is None:
+        return
+    c = copy.copy(real)
+    c.key = "Context.handle_message!call"
+    assert set(real.raises) == {"Alert", "CallbackError", "BufferWriteError", "MemoryError", "ValueError", "Error"}, real.raises
+    c.raises = {"Alert": None, "QuicConnectionError": None, "MemoryError": None, "BufferWriteError": None, "ValueError": None, "Error": None}
+    c.raise_attrs = {"Alert": {"description": "fresh:int"}, "QuicConnectionError": {"error_code": "fresh:int", "frame_type": "fresh:Optional[int]", "reason_phrase": "fresh:str"}}
+    c.on_raise = {"BufferWriteError": ["not old(tls_out_room(self))"],
+                  "ValueError": ["old(self._verify_mode != ssl.CERT_NONE and vc_config_bad(self._cadata, self._cafile, self._capath))"],
+                  "Error": ["old(self._verify_mode != ssl.CERT_NONE and vc_config_bad(self._cadata, self._cafile, self._capath))"]}
+    c.requires = list(real.assume_pre)  # L and the three epoch buffers: obligations of the caller
+    c.assume_pre = []
+    c.ensures = []
+    c.loops = {}
+    c.modifies = ["<everything>"]
+    c.trusted = False
+    reg.contracts[c.key] = c
+
+
+R.after_load(_tls_call_summary)
 R.field_types("QuicConnection", tls="Context")
 
 # CRYPTO.  FRAME_ENCODING_ERROR exactly when offset + length > 2^62 - 1, CRYPTO_BUFFER_EXCEEDED exactly when the data would
@@ -298,7 +329,7 @@ R.contract(
     requires=[EPOCH_IH1],
     # all_spaces_ok: ledger invariant of the recovery object (C08, inductive over its operations)
     assume_pre=[LOG, CRYPTO_STREAMS, CS_RECV, "all_spaces_ok(self._loss)"],
-    raises={BRE: None, QCE: None},
+    raises={BRE: None, QCE: None, MEM: None},
     modifies=["<everything>"],
     stop_at=[_TLS_CALL],
     on_raise={QCE: ["exc_error_code == QuicErrorCode.FRAME_ENCODING_ERROR or exc_error_code == QuicErrorCode.CRYPTO_BUFFER_EXCEEDED",
@@ -306,14 +337,18 @@ R.contract(
     ensures=["offset + length <= 4611686018427387903"],
     **_H,
 )
-# the TLS call.  CLAIM (C05): only QuicConnectionError leaves it - a tls.Alert is converted to CRYPTO_ERROR + description.
-# REFUTED on the unchanged tree: any non-Alert exception raised inside tls.Context.handle_message escapes (natively
-# reproduced: tools/repro/c05_tls_*.py); recorded in known_findings.json under the obligation no-escape.Exception.
+# the TLS call.  CLAIM (C05): only QuicConnectionError leaves it - a tls.Alert is converted to CRYPTO_ERROR + description -
+# (plus MemoryError).  DISCHARGED against the verified contract of tls.Context.handle_message; the genuine defects that
+# remain inside the TLS layer on the unchanged tree are recorded where they are (known_findings.json: obligations of
+# Context._check_certificate_verify_signature, _set_peer_certificate, _client_handle_hello, verify_certificate, ...).
 R.contract(
     "QuicConnection._handle_crypto_frame@tls_call",
     region={"anchor": _TLS_CALL, "span": 3},
     params={"context": "QuicReceiveContext", "frame_type": "int", "event": "StreamDataReceived"},
-    raises={QCE: None},
+    # CS_BUFFERS / CS_SENDERS: crypto-stream invariants (above); the three epoch buffers exist (_initialize@tables);
+    # TLS_LIVE / TLS_OUT / TLS_CA: see the call-site summary above
+    assume_pre=[CS_BUFFERS, CS_SENDERS, "Epoch.INITIAL in self._crypto_buffers and Epoch.HANDSHAKE in self._crypto_buffers and Epoch.ONE_RTT in self._crypto_buffers", TLS_LIVE, TLS_OUT, TLS_CA],
+    raises={QCE: None, MEM: None},
     modifies=["<everything>"],
     on_raise={QCE: ["exc_frame_type == frame_type or True"]},
     ensures=["self._crypto_frame_type == frame_type or True"],
@@ -362,7 +397,6 @@ _QCE_ATTRS = {QCE: {"error_code": "fresh:int", "frame_type": "fresh:Optional[int
 # lookup is converted), a frame type not allowed in the packet's epoch PROTOCOL_VIOLATION, StreamFinishedError is dropped,
 # an empty payload / a first Initial without CRYPTO PROTOCOL_VIOLATION.  Every handler is called by its contract (H);
 # the handlers' entry conditions on the epoch (ACK, CRYPTO: not 0-RTT) are proved from the epoch column of the table.
-MEM = "MemoryError"  # Buffer(...) allocation failure (declared by the Buffer model): resource exhaustion, not an input-dependent failure
 
 # RESULT of _payload_received (used by the acknowledgement machinery, C12).  From RFC 9000 13.2.1 / 9.1, not from the code's tables:
 #   a packet is ack-eliciting iff it carries at least one frame other than ACK (0x02, 0x03), PADDING (0x00), CONNECTION_CLOSE (0x1c, 0x1d);
